@@ -273,6 +273,7 @@ func (t *Thread) processIncomingInterest(packet *defn.Pkt) {
 					packet.Raw = csWire
 					packet.Name = csData.NameV
 					strategy.AfterContentStoreHit(packet, pitEntry, incomingFace.FaceID())
+					table.UpdateExpirationTimer(pitEntry)
 					return
 				} else if err != nil {
 					core.LogError(t, "Error copying CS entry: ", err)
